@@ -18,6 +18,7 @@ import (
 	"net"
 	"net/url"
 	"sort"
+	"strings"
 	"time"
 
 	"verif/ref/der"
@@ -745,6 +746,85 @@ func generalNameOddities() []*built {
 				tbs := der.Seq(der.Int(1), signer.SigAlgDER(), iss.DER(), der.Time(this), der.Time(next), entries, der.Explicit(0, der.Seq(exts...)))
 				out = append(out, &built{DER: der.Seq(tbs, signer.SigAlgDER(), der.BitString(detSign(signer, tbs), 0)), Kind: "raw", Name: "general-names:crl-" + where + ":" + tag, TBSOff: -1})
 			}
+		}
+	}
+	return out
+}
+
+// signatureAlgorithmForms: certificates whose inner and outer signatureAlgorithm is each form the
+// two parsers classify by table: RSASSA-PSS with every hash x salt length x optional part, and the
+// plain identifiers of every family. The signature value is not looked at by a parser.
+func signatureAlgorithmForms() []*built {
+	var out []*built
+	sub, iss := derNames(true)
+	hashes := []struct {
+		n   string
+		oid []int
+	}{{"sha1", []int{1, 3, 14, 3, 2, 26}}, {"sha256", []int{2, 16, 840, 1, 101, 3, 4, 2, 1}}, {"sha384", []int{2, 16, 840, 1, 101, 3, 4, 2, 2}}, {"sha512", []int{2, 16, 840, 1, 101, 3, 4, 2, 3}}, {"sha224", []int{2, 16, 840, 1, 101, 3, 4, 2, 4}}}
+	oidPSS, oidMGF1 := []int{1, 2, 840, 113549, 1, 1, 10}, []int{1, 2, 840, 113549, 1, 1, 8}
+	algs := map[string][]byte{}
+	hashAI := func(oid []int, null bool) []byte {
+		if null {
+			return der.Seq(der.OID(oid...), der.Null())
+		}
+		return der.Seq(der.OID(oid...))
+	}
+	for _, h := range hashes {
+		for _, mg := range hashes {
+			if mg.n != h.n && !(h.n == "sha512" && mg.n == "sha384") && !(h.n == "sha256" && mg.n == "sha1") {
+				continue
+			}
+			for _, salt := range []int64{-1, 0, 20, 28, 32, 48, 64, 65} {
+				for _, form := range []string{"null-params", "absent-params", "trailer-1", "trailer-2"} {
+					if form != "null-params" && !(salt == 32 || salt == 48 || salt == 64) {
+						continue
+					}
+					parts := [][]byte{der.Explicit(0, hashAI(h.oid, form != "absent-params")),
+						der.Explicit(1, der.Seq(der.OID(oidMGF1...), hashAI(mg.oid, form != "absent-params")))}
+					if salt >= 0 {
+						parts = append(parts, der.Explicit(2, der.Int(salt)))
+					}
+					switch form {
+					case "trailer-1":
+						parts = append(parts, der.Explicit(3, der.Int(1)))
+					case "trailer-2":
+						parts = append(parts, der.Explicit(3, der.Int(2)))
+					}
+					algs[fmt.Sprintf("pss-%s-mgf1-%s-salt%d-%s", h.n, mg.n, salt, form)] = der.Seq(der.OID(oidPSS...), der.Seq(parts...))
+				}
+			}
+		}
+	}
+	algs["pss-without-parameters"] = der.Seq(der.OID(oidPSS...))
+	algs["pss-null-parameters"] = der.Seq(der.OID(oidPSS...), der.Null())
+	algs["pss-empty-parameters"] = der.Seq(der.OID(oidPSS...), der.Seq())
+	for n, oid := range map[string][]int{
+		"md5-rsa": {1, 2, 840, 113549, 1, 1, 4}, "sha1-rsa": {1, 2, 840, 113549, 1, 1, 5}, "sha1-rsa-iso": {1, 3, 14, 3, 2, 29},
+		"sha256-rsa": {1, 2, 840, 113549, 1, 1, 11}, "sha384-rsa": {1, 2, 840, 113549, 1, 1, 12}, "sha512-rsa": {1, 2, 840, 113549, 1, 1, 13}, "sha224-rsa": {1, 2, 840, 113549, 1, 1, 14},
+		"dsa-sha1": {1, 2, 840, 10040, 4, 3}, "dsa-sha256": {2, 16, 840, 1, 101, 3, 4, 3, 2},
+		"ecdsa-sha1": {1, 2, 840, 10045, 4, 1}, "ecdsa-sha224": {1, 2, 840, 10045, 4, 3, 1}, "ecdsa-sha256": {1, 2, 840, 10045, 4, 3, 2}, "ecdsa-sha384": {1, 2, 840, 10045, 4, 3, 3}, "ecdsa-sha512": {1, 2, 840, 10045, 4, 3, 4},
+		"ed25519": {1, 3, 101, 112}, "ed448": {1, 3, 101, 113}, "unassigned": {1, 2, 840, 113549, 1, 1, 99},
+	} {
+		algs["plain-"+n+"-null"] = der.Seq(der.OID(oid...), der.Null())
+		algs["plain-"+n+"-absent"] = der.Seq(der.OID(oid...))
+	}
+	var names []string
+	for n := range algs {
+		names = append(names, n)
+	}
+	sort.Strings(names)
+	sig := make([]byte, 256)
+	for i := range sig {
+		sig[i] = byte(i*7 + 1)
+	}
+	for _, n := range names {
+		for ki, kn := range []string{"rsa2048-0", "p256-3"} {
+			if ki == 1 && !strings.HasPrefix(n, "plain-") {
+				continue
+			}
+			t := pki.Tmpl{Serial: []byte{0x35}, Issuer: iss, Subject: sub, NotBefore: pki.T0, NotAfter: time.Date(2030, 1, 1, 0, 0, 0, 0, time.UTC), Key: pki.LoadKey(kn),
+				Exts: []pki.Ext{pki.ExtBasicConstraints(true, false)}}
+			out = append(out, &built{DER: pki.Assemble(t.TBS(algs[n]), algs[n], sig), Kind: "raw", Name: "signature-algorithm:" + n + ":key-" + kn, TBSOff: -1})
 		}
 	}
 	return out
